@@ -91,8 +91,35 @@ pub fn check_env_key(c: &EnvKey) -> CheckResult {
     ok(true, "env-key/distinguished")
 }
 
+/// The commands that take a locked key on their command line: a changed blob or a wrong password must make each of them
+/// fail and print no key - whatever the new password is (another one, the same as the old one that was given, empty).
+#[derive(Clone, Debug, Serialize, Deserialize)]
+pub struct CliKey { pub sk: u64, pub pw: String, pub bit: Option<usize>, pub wrong_pw: bool, pub cmd: u8 }
+pub fn check_cli_key(c: &CliKey) -> CheckResult {
+    use crate::cli::Sandbox;
+    let skb = gen::key32(c.sk, "c15-sk"); let saltb = gen::key32(c.sk ^ 5, "c15-salt");
+    let locked = locked_cached(&skb, c.pw.as_bytes(), &saltb);
+    let given = match c.bit { Some(b) => { let mut blob = kspec::base64_decode(&locked).ok_or("lock produced a string that is not strict base64")?; let b = b % (84 * 8); blob[b / 8] ^= 1 << (b % 8); kspec::base64(&blob) } None => locked.clone() };
+    let old = if c.wrong_pw { format!("{}~", c.pw) } else { c.pw.clone() };
+    let sb = Sandbox::new();
+    let (r, what) = match c.cmd % 4 {
+        0 => (sb.cmd(&["key", "extract-pub", &given, "--env-pass"]).env("KESTREL_PASSWORD", &old).run(), "extract-pub"),
+        1 => (sb.cmd(&["key", "change-pass", &given, "--env-pass"]).env("KESTREL_PASSWORD", &old).env("KESTREL_NEW_PASSWORD", "another password").run(), "change-pass (new password differs)"),
+        2 => (sb.cmd(&["key", "change-pass", &given, "--env-pass"]).env("KESTREL_PASSWORD", &old).env("KESTREL_NEW_PASSWORD", &old).run(), "change-pass (new password = the old password given)"),
+        _ => (sb.cmd(&["key", "change-pass", &given, "--env-pass"]).env("KESTREL_PASSWORD", &old).env("KESTREL_NEW_PASSWORD", "").run(), "change-pass (new password empty)"),
+    };
+    ensure!(r.signal.is_none() && !r.timed_out && matches!(r.code, Some(0) | Some(1)), "`key {}` ended abnormally: {}", what, r.describe());
+    let bad = c.bit.is_some() || c.wrong_pw;
+    let printed_key = r.stdout_s().contains("PrivateKey") || r.stdout_s().contains("PublicKey");
+    if bad { ensure!(r.code == Some(1) && !printed_key, "`key {}` on a locked key {} exited {:?} and printed {:?}", what, match (c.bit, c.wrong_pw) { (Some(b), false) => format!("with bit {} ({}) changed", b % 672, region((b % 672) / 8)), (None, true) => "under a wrong password".to_string(), (Some(_), true) => "changed and under a wrong password".to_string(), _ => String::new() }, r.code, r.stdout_s().chars().take(80).collect::<String>()); }
+    else { ensure!(r.code == Some(0) && printed_key, "`key {}` on an intact key under its password failed: {}", what, r.describe());
+        if c.cmd % 4 != 0 { let out = r.stdout_s(); let l = out.lines().find_map(|l| l.strip_prefix("PrivateKey = ")).ok_or("no PrivateKey line")?.trim().to_string(); let newpw: &[u8] = match c.cmd % 4 { 1 => b"another password", 2 => old.as_bytes(), _ => b"" };
+            ensure!(unlock_str(&l, newpw).ok() == Some(skb), "the string printed by `key {}` does not unlock to the same key under the new password", what); } }
+    ok(bad, format!("cli-key/{}/{}", what.split(' ').next().unwrap_or(""), if c.bit.is_some() { "tampered" } else if c.wrong_pw { "wrong-password" } else { "control" }))
+}
+
 pub fn run(ctx: &Ctx) {
-    set_rule("C15", "(32-byte key, password from the C02 domain, salt): lock == specification lock (string equality), unlock(lock) = key, generated wrong passwords rejected (HMAC-equivalent spellings excluded); single-bit flips of the 84-byte blob re-encoded to base64 (all 32 version bits, sampled/all salt, ciphertext and tag bits) must be rejected by try_from or unlock; strings of every length 0..130 over base64 / non-base64 / Unicode alphabets and 112-character strings with one character replaced must be rejected or fail to unlock, never panic. Non-trivial = flip outside the version field, password empty / non-ASCII / > 64 bytes, or non-empty malformed string; distinct by hash of the case / enumeration index");
+    set_rule("C15", "(32-byte key, password from the C02 domain, salt): lock == specification lock (string equality), unlock(lock) = key, generated wrong passwords rejected (HMAC-equivalent spellings excluded); single-bit flips of the 84-byte blob re-encoded to base64 (all 32 version bits, sampled/all salt, ciphertext and tag bits) must be rejected by try_from or unlock; the key commands of the binary (extract-pub, change-pass with the new password different from / equal to the old one / empty) on intact, tampered and wrongly-passworded keys; strings of every length 0..130 over base64 / non-base64 / Unicode alphabets and 112-character strings with one character replaced must be rejected or fail to unlock, never panic. Non-trivial = flip outside the version field, password empty / non-ASCII / > 64 bytes, or non-empty malformed string; distinct by hash of the case / enumeration index");
     ctx.assume("kspec::lock_private_key is the documented format (docs/file-format.txt) built on RFC 7914/8439 code validated at start-up");
     ctx.pbt("lock_unlock_wrong", ctx.n(160, 4_000), || (any::<u64>(), gen::password_strategy(), any::<u64>(), any::<u64>()).prop_map(|(sk, w, salt, wrong_sel)| Case::LockUnlock { sk, w, salt, wrong_sel, n_wrong: 2 }), check);
     let nkeys = ctx.n(16, 40) as usize;
@@ -114,5 +141,8 @@ pub fn run(ctx: &Ctx) {
     mal.push(Case::Malformed { s: format!("{}=", valid) }); mal.push(Case::Malformed { s: format!("{}====", valid) }); mal.push(Case::Malformed { s: format!(" {}", valid) }); mal.push(Case::Malformed { s: format!("{}\n", valid) });
     ctx.sse_vec("malformed_strings", "every length 0..=130 x 6 alphabets; every position of a valid 112-character string x 8 replacement characters; padding/whitespace variants", mal, check);
     ctx.sse_vec("cli_env_password_bytes", "key generate under non-UTF-8 password bytes A, extract-pub under different bytes B: refused or told apart", vec![(b"caf\xe9".to_vec(), b"caf\xe8".to_vec()), (vec![0xff], vec![0xfe]), (vec![0xff], "\u{fffd}".as_bytes().to_vec()), (b"pw\x80".to_vec(), b"pw\x81".to_vec())].into_iter().map(|(a, b)| EnvKey { a, b }).collect(), check_env_key);
+    { let mut v = Vec::new(); for cmd in 0..4u8 { v.push(CliKey { sk: 1, pw: "alice".into(), bit: None, wrong_pw: false, cmd }); v.push(CliKey { sk: 1, pw: "alice".into(), bit: None, wrong_pw: true, cmd }); for bit in [0usize, 9, 31, 40, 300, 500, 600, 671] { v.push(CliKey { sk: 1, pw: "alice".into(), bit: Some(bit), wrong_pw: false, cmd }); } }
+      ctx.sse_vec("cli_key_commands_fixed", "extract-pub and change-pass (new password different / equal to the old one given / empty) on an intact key, under a wrong password, and with one bit of each region changed", v, check_cli_key);
+      ctx.pbt("cli_key_commands", ctx.n(60, 1_500), || (0u64..4, prop_oneof![Just("alice".to_string()), Just(String::new()), Just("pässwörd".to_string())], proptest::option::weighted(0.6, 0usize..672), any::<bool>(), 0u8..4).prop_map(|(sk, pw, bit, wrong_pw, cmd)| CliKey { sk, pw, bit, wrong_pw: wrong_pw && bit.is_none() || (wrong_pw && sk == 0), cmd }), check_cli_key); }
     ctx.pbt("malformed_random", ctx.n(20_000, 500_000), || prop_oneof![12 => "[A-Za-z0-9+/=]{0,130}", 12 => "\\PC{0,60}", 12 => "[A-Za-z0-9+/]{112}", 1 => "ZWdrM[A-Za-z0-9+/]{107}"].prop_map(|s| Case::Malformed { s }), check);
 }
